@@ -317,6 +317,24 @@ tagspec(struct scope *s)
 }
 
 /* 6.7 Declarations */
+/* unqualified version of a type: the qualifiers of an array type are those of its element type */
+static struct type *
+unqualtype(struct type *t)
+{
+	struct type *base, *new;
+
+	if (t->kind != TYPEARRAY || t->prop & PROPVM)
+		return t;
+	base = unqualtype(t->base);
+	if (base == t->base && t->qual == QUALNONE)
+		return t;
+	new = xmalloc(sizeof(*new));
+	*new = *t;
+	new->base = base;
+	new->qual = QUALNONE;
+	return new;
+}
+
 static struct qualtype
 declspecs(struct scope *s, enum storageclass *sc, enum funcspec *fs, int *align)
 {
@@ -437,6 +455,8 @@ declspecs(struct scope *s, enum storageclass *sc, enum funcspec *fs, int *align)
 				if (t->prop & PROPVM)
 					typeofexpr = e;
 			}
+			if (op == TTYPEOF_UNQUAL)
+				t = unqualtype(t);
 			++ntypes;
 			expect(TRPAREN, "to close 'typeof'");
 			break;
